@@ -33,6 +33,8 @@ pub fn algs_list(code: &str) -> Option<Vec<(u16, Vec<u8>)>> {
         "shap2" => Some(vec![(ALG_SHA256, vec![1, 2])]),
         "p3sha" => Some(vec![(0x0007, vec![1, 2, 3]), (ALG_SHA256, vec![])]),
         "md5p5sha" => Some(vec![(ALG_MD5, vec![1, 2, 3, 4, 5]), (ALG_SHA256, vec![])]),
+        // three entries, an unassigned algorithm with an odd-sized parameter first
+        "p2md5sha" => Some(vec![(0x0005, vec![1, 2]), (ALG_MD5, vec![]), (ALG_SHA256, vec![])]),
         _ => None,
     }
 }
